@@ -3,8 +3,8 @@ From Coq Require Import List NArith ZArith Lia Bool.
 Import ListNotations.
 Local Open Scope N_scope.
 
-Definition byte := N.            (* by convention < 256 *)
-Definition bytes := list byte.
+Notation byte := N (only parsing).            (* by convention < 256 *)
+Notation bytes := (list N) (only parsing).
 
 Definition is_byte (b : N) : Prop := b < 256.
 Definition all_bytes (l : bytes) : Prop := Forall is_byte l.
